@@ -24,6 +24,12 @@ pub enum ClassKind {
     Single(usize),
     /// Harness-defined policy that rates some pairs `Invalid` (C13 only).
     WithInvalid([usize; 3]),
+    /// Like `Simple`, but the two classes carry the given (strictly increasing) ids below 8
+    /// instead of 0 and 1. The repository's policies only compare ids, so the behaviour is the
+    /// same; inside the harness classes stay numbered 0..n (see `ext`/`int`).
+    SimpleIds([usize; 2], [u8; 2]),
+    /// Like `Movable` with the given strictly increasing ids.
+    MovableIds([usize; 3], [u8; 3]),
 }
 
 /// Policy of `Classing::simple` (taken from the repository at run time).
@@ -53,8 +59,8 @@ fn invalid_policy(requested: Class, target: Class, free: usize) -> Policy {
 impl ClassKind {
     pub fn slots(&self) -> Vec<usize> {
         match self {
-            ClassKind::Simple(s) => s.to_vec(),
-            ClassKind::Movable(s) | ClassKind::Zeroed(s) | ClassKind::WithInvalid(s) => s.to_vec(),
+            ClassKind::Simple(s) | ClassKind::SimpleIds(s, _) => s.to_vec(),
+            ClassKind::Movable(s) | ClassKind::Zeroed(s) | ClassKind::WithInvalid(s) | ClassKind::MovableIds(s, _) => s.to_vec(),
             ClassKind::Single(s) => vec![*s],
         }
     }
@@ -63,8 +69,8 @@ impl ClassKind {
     }
     pub fn default_class(&self) -> u8 {
         match self {
-            ClassKind::Simple(_) => 1,
-            ClassKind::Movable(_) => 2,
+            ClassKind::Simple(_) | ClassKind::SimpleIds(..) => 1,
+            ClassKind::Movable(_) | ClassKind::MovableIds(..) => 2,
             ClassKind::Zeroed(_) => 1,
             ClassKind::Single(_) => 0,
             ClassKind::WithInvalid(_) => 1,
@@ -72,24 +78,41 @@ impl ClassKind {
     }
     pub fn policy(&self) -> PolicyFn {
         match self {
-            ClassKind::Simple(_) | ClassKind::Zeroed(_) | ClassKind::Single(_) => simple_policy(),
-            ClassKind::Movable(_) => movable_policy(),
+            ClassKind::Simple(_) | ClassKind::Zeroed(_) | ClassKind::Single(_) | ClassKind::SimpleIds(..) => simple_policy(),
+            ClassKind::Movable(_) | ClassKind::MovableIds(..) => movable_policy(),
             ClassKind::WithInvalid(_) => invalid_policy,
         }
     }
+    /// Class ids as the allocator sees them, by harness class number.
+    pub fn ids(&self) -> Vec<u8> {
+        match self {
+            ClassKind::SimpleIds(_, ids) => ids.to_vec(),
+            ClassKind::MovableIds(_, ids) => ids.to_vec(),
+            _ => (0..self.classes() as u8).collect(),
+        }
+    }
+    /// harness class number -> class id of the allocator
+    pub fn ext(&self, class: u8) -> u8 {
+        match self {
+            ClassKind::SimpleIds(_, ids) => ids[class as usize],
+            ClassKind::MovableIds(_, ids) => ids[class as usize],
+            _ => class,
+        }
+    }
     pub fn classing(&self) -> Classing {
+        let ids = self.ids();
         let mut classes: Vec<(Class, usize)> = self
             .slots()
             .iter()
             .enumerate()
-            .map(|(i, &n)| (Class(i as u8), n))
+            .map(|(i, &n)| (Class(ids[i]), n))
             .collect();
         // The position of a class in the list has no meaning in the interface (classes are named
         // by id). Vary it with the slot counts so that generated configurations also cover lists
         // that are not sorted by id; the same ClassKind always gives the same list.
         let rot = self.slots().iter().sum::<usize>() % classes.len();
         classes.rotate_left(rot);
-        Classing::new(&classes, Class(self.default_class()), self.policy())
+        Classing::new(&classes, Class(self.ext(self.default_class())), self.policy())
     }
     pub fn has_invalid(&self) -> bool {
         matches!(self, ClassKind::WithInvalid(_))
@@ -115,6 +138,15 @@ pub struct Inst {
     pub alloc: LLFree<'static>,
     pub bufs: Bufs,
     pub classing: Classing,
+    /// class ids of the allocator by harness class number
+    pub ids: Vec<u8>,
+}
+
+impl Inst {
+    /// class id reported by the allocator -> harness class number (0xff: not a configured id)
+    pub fn int(&self, id: u8) -> u8 {
+        self.ids.iter().position(|&i| i == id).map_or(0xff, |p| p as u8)
+    }
 }
 
 impl Inst {
@@ -142,6 +174,7 @@ impl Inst {
             alloc,
             bufs,
             classing,
+            ids: classes.ids(),
         })
     }
 }
